@@ -21,6 +21,12 @@ for stream, text, pause in spec["chunks"]:
     f.flush()
     if pause:
         time.sleep(pause)
+if spec.get("close_gap"):
+    import os
+    sys.stdout.flush(); sys.stderr.flush()
+    os.close(1); os.close(2)          # the pipes reach end-of-file while the child is still alive
+    time.sleep(spec["close_gap"])
+    os._exit(spec["status"])
 sys.exit(spec["status"])
 """
 
@@ -44,7 +50,10 @@ def gen_child(rng):
         chunks[-1][2] = tail_pause
     else:
         chunks.append([0, "", tail_pause])
-    return {"chunks": chunks, "status": status}
+    spec = {"chunks": chunks, "status": status}
+    if rng.random() < 0.2:
+        spec["close_gap"] = rng.choice([0.05, 0.15, 0.3])      # well inside the monitor's half-second grace period
+    return spec
 
 
 def expected(spec, stream):
